@@ -111,21 +111,29 @@ func runC10(c c10Case) (*vh.Violation, vh.Outcome) {
 	}
 	time.Sleep(2 * time.Millisecond)
 
+	// every receive from msgC happens under the simulator's lock (before each request is recorded, and when the
+	// harness collects), so a message handed over before the watcher's next request is stamped before that request
 	var arrivals []arrival
 	curOp := -1
-	collect := func() {
+	drain := func(n int) {
 		for {
 			select {
 			case m := <-msgC:
-				sim.mu.Lock()
-				n := len(sim.served)
-				sim.mu.Unlock()
 				arrivals = append(arrivals, arrival{m, n, curOp})
 			default:
 				return
 			}
 		}
 	}
+	sim.mu.Lock()
+	sim.drain = drain
+	sim.mu.Unlock()
+	collect := func() {
+		sim.mu.Lock()
+		drain(len(sim.served))
+		sim.mu.Unlock()
+	}
+	setOp := func(i int) { sim.mu.Lock(); curOp = i; sim.mu.Unlock() }
 	countLog := func(msg string) int { return logs.FilterMessage(msg).Len() }
 	processedHead := func() uint64 {
 		var h uint64
@@ -173,7 +181,7 @@ func runC10(c c10Case) (*vh.Violation, vh.Outcome) {
 	reorgOrJump, reobs := false, false
 	maxCL := 0
 	for i, o := range c.Ops {
-		curOp = i
+		setOp(i)
 		switch o.K {
 		case "log":
 			sim.mu.Lock()
@@ -297,7 +305,7 @@ func runC10(c c10Case) (*vh.Violation, vh.Outcome) {
 	}
 	// final stretch: make every pending message deep enough, in one jump (finality catching up)
 	if !restarted {
-		curOp = len(c.Ops)
+		setOp(len(c.Ops))
 		sim.mu.Lock()
 		sim.head += uint64(maxCL + 2)
 		sim.mu.Unlock()
@@ -323,10 +331,11 @@ func runC10(c c10Case) (*vh.Violation, vh.Outcome) {
 	// ---------------------------------------------------------------- safety, against what the node answered
 	sim.mu.Lock()
 	servedLog := append([]served{}, sim.served...)
+	arrived := append([]arrival{}, arrivals...)
 	sim.mu.Unlock()
 	isReobsOp := func(i int) bool { return i >= 0 && i < len(c.Ops) && c.Ops[i].K == "reobserve" }
 	polled := map[string]int{}
-	for _, a := range arrivals {
+	for _, a := range arrived {
 		m := a.msg
 		t := sim.txs[m.TxHash]
 		if t == nil {
